@@ -1,3 +1,3 @@
 import AkVerif.Model.LLDriver
 /-! driver of C03: the shared LL handler (grammar construction, parse, diagnostics) -/
-def main : IO Unit := Ak.Proto.runS LL.Drv.handle none
+def main : IO Unit := Ak.Proto.runS LL.Drv.handle {}
